@@ -194,8 +194,11 @@ func (g *stmtGen) safeText() model.Stmt {
 
 func (g *stmtGen) program(n int) []model.Stmt { return g.block(n, g.o.MaxDepth) }
 
-// block generates n statements; the first is always text so that no body is empty
+// block generates n statements starting with text; now and then a nested body is empty
 func (g *stmtGen) block(n int, depth int) []model.Stmt {
+	if depth < g.o.MaxDepth && g.r.Intn(14) == 0 {
+		return []model.Stmt{} // an empty body is a body too
+	}
 	out := []model.Stmt{g.safeText()}
 	for i := 0; i < n; i++ {
 		out = append(out, g.stmt(depth)...)
